@@ -20,7 +20,7 @@ from translate import pyfuns
 TIES = {
     "C04": {"props": "PysamlModel.Props.PyTieC04", "audit": "PysamlModel/Audit/PyTieC04.lean", "functions": ["for_me"]},
     "C05": {"props": "PysamlModel.Props.PyTieC05", "audit": "PysamlModel/Audit/PyTieC05.lean",
-            "functions": ["validate_on_or_after", "validate_before"]},
+            "functions": ["validate_on_or_after", "validate_before", "authn_statement_ok"]},
 }
 DRIVER = "Drivers/PyFuns.lean"
 
@@ -57,7 +57,33 @@ def cases(pid, rng, tier):
             for _ in range(n // 4):
                 out.append({"fn": fn, "t": "x", "tm": S.NOW0 + rng.randint(-400, 400), "now": S.NOW0 + rng.randint(-5, 5),
                             "skew": rng.choice([0, 1, 59, 60, 61, 180, 300])})
+    if "authn_statement_ok" in TIES[pid]["functions"]:
+        offs = [None, "", -86400, -61, -60, -59, -1, 0, 1, 60, 86400, -S.NOW0]   # -NOW0: the instant 0 (falsy nooa)
+        for skew in (0, 60):
+            for o in offs:
+                out.append(_authn_case([o], skew, 0))
+                out.append(_authn_case([o], skew, 12345))
+            out.append(_authn_case([], skew, 0))
+            for o in offs[:6]:
+                out.append(_authn_case([o, 3600], skew, 0))
+                out.append(_authn_case([3600, o, None], skew, 5))
+        for _ in range(n // 4):
+            k = rng.choice([0, 1, 1, 1, 1, 2, 3])
+            out.append(_authn_case([rng.choice(offs + [rng.randint(-300, 300)]) for _ in range(k)], rng.choice([0, 1, 60, 180]),
+                                   rng.choice([0, 0, 99])))
     return out
+
+
+def _authn_case(offs, skew, sess):
+    stmts, tab = [], []
+    for o in offs:
+        if o is None or o == "":
+            stmts.append(o)
+        else:
+            t = S.NOW0 + o
+            stmts.append(S.fmt_time(t))
+            tab.append([S.fmt_time(t), t])
+    return {"fn": "authn_statement_ok", "stmts": stmts, "tmtab": tab, "now": S.NOW0, "skew": skew, "sess": sess}
 
 
 def run_real(case):
@@ -72,6 +98,17 @@ def run_real(case):
             conds = saml.Conditions(audience_restriction=[
                 saml.AudienceRestriction(audience=[saml.Audience(text=t) for t in r]) for r in case["rs"]])
             v = for_me(conds, case["me"])
+        elif fn == "authn_statement_ok":
+            from saml2 import saml
+            from saml2.response import AuthnResponse
+
+            ar = AuthnResponse.__new__(AuthnResponse)   # the method reads three attributes of self, nothing else
+            ar.assertion = saml.Assertion(authn_statement=[saml.AuthnStatement(session_not_on_or_after=t) for t in case["stmts"]])
+            ar.timeslack = case["skew"]
+            ar.session_not_on_or_after = case["sess"]
+            with S.clock(case["now"]):
+                ar.authn_statement_ok(False)
+            return {"r": "value", "session": ar.session_not_on_or_after}
         else:
             from saml2 import validate
 
@@ -95,6 +132,8 @@ def differential(pid, rng, tier, run_driver):
     d1, d2, hist = [], [], {}
     for c, r, l in zip(cs, real, lean):
         k = c["fn"] + "/" + (r["cls"] if r["r"] == "raised" else (str(r["v"]) if isinstance(r.get("v"), bool) else "value"))
+        if c["fn"] == "authn_statement_ok" and r["r"] == "value":
+            k += ":" + ("unchanged" if r["session"] == c["sess"] else "set")
         hist[k] = hist.get(k, 0) + 1
         if l.get("interp") != r:
             d1.append({"case": c, "cpython": r, "interp": l.get("interp")})
